@@ -65,4 +65,22 @@ def groups():
         F([A, a], tr(sdiv(A, a)) == sdiv(tr(A), a), patterns=[tr(sdiv(A, a))]),
         F([A, B, a], mul(A, sdiv(B, a)) == sdiv(mul(A, B), a), patterns=[mul(A, sdiv(B, a))]),
     ]
-    return g, {'onecol': onecol, 'eye': eye, 'invertible': invertible}
+    hdiv = T.mf('hdiv', M, M, M)
+    hmul = T.mf('hmul', M, M, M)
+    outer = T.mf('outer', M, M, M)
+    sadd = T.mf('sadd', M, R, M)
+    rdiv = T.mf('rdiv', R, M, M)
+    diag = T.mf('diag', M, M)
+    nonneg = z3.Function('m_nonneg', M, z3.BoolSort())
+    u, v = z3.Consts('tu tv', M)
+    # L1 (Hadamard division by the damped eigenvalue products undoes the two-sided diagonal scaling):
+    #   diag(u) (M ./ (u v^T + lam)) diag(v) + lam (M ./ (u v^T + lam)) == M      for u, v >= 0, lam > 0
+    g['hadamard'] = [
+        F([A, u, v, a], z3.Implies(z3.And(nonneg(u), nonneg(v), a > 0),
+                                   add(mul(mul(diag(u), hdiv(A, sadd(outer(u, v), a))), diag(v)), smul(a, hdiv(A, sadd(outer(u, v), a)))) == A),
+          patterns=[hdiv(A, sadd(outer(u, v), a))]),
+        # multiplying by the pre-divided reciprocal is the same as dividing
+        F([A, B, a], hmul(A, rdiv(1, sadd(B, a))) == hdiv(A, sadd(B, a)), patterns=[hmul(A, rdiv(1, sadd(B, a)))]),
+        F([A], nonneg(T.mf('clampmin', M, R, M)(A, 0)), patterns=[T.mf('clampmin', M, R, M)(A, 0)]),
+    ]
+    return g, {'onecol': onecol, 'eye': eye, 'invertible': invertible, 'nonneg': nonneg}
